@@ -16,8 +16,11 @@ def norm(v):
         return ("set",) + tuple(sorted((norm(x) for x in v), key=repr))
     if isinstance(v, dict):
         return ("dict",) + tuple(sorted(((norm(k), norm(x)) for k, x in v.items()), key=repr))
-    if isinstance(v, bool) or v is None or isinstance(v, (int, float, str)):
+    if isinstance(v, bool) or v is None:
         return v
+    for t in (int, float, str):
+        if isinstance(v, t):
+            return v if type(v) is t else t(v)       # subclasses (a caller's str / int subclass) by value
     return ("obj", type(v).__name__, repr(v))
 
 
